@@ -207,3 +207,35 @@ def _(u):
             some_running = u.exists((J,), lambda k: pre["job_in_process"].at(b, k))
             u.prove(f"jmask.{tag}.noop.iff", m_.at(b, 0) == OR(pre["done"].at(b, 0), some_running), tags=("C07", "C02"))
         u.canary(f"jmask.{tag}.needs-all-machines", m_.at(b, 1 + j) == u.forall((M,), lambda m: can_start(pre, b, j, m)))
+
+
+@spec("rl4co/envs/common/base.py", "RL4COEnvBase.__init__")
+def env_base_init_spec(u, selfobj, *args, **kwargs):
+    """TorchRL EnvBase construction (devices, specs, seeds): outside the properties; keeps the keyword options as attributes."""
+    for k, v in kwargs.items():
+        selfobj._attrs[k] = v
+    return None
+
+
+@unit("jssp.init.configuration", file=JS, func="JSSPEnv.__init__", props=("C05", "C07", "C02"))
+def _(u):
+    # configuration plumbing: the `mask_no_ops` / `check_mask` / `stepwise_reward` a user passes to JSSPEnv / FJSPEnv is the one
+    # the mask and the step use (JSSPEnv forwards to FJSPEnv.__init__; a swapped parameter would silently fall back to the default
+    # and e.g. never offer waiting, hiding every schedule that needs an idle machine)
+    gen = u.ns(num_mas=3, num_jobs=4, max_ops_per_job=3)
+    base_init = {}
+    u.stub(JSSPGenerator=lambda **kw: gen, JSSPFileGenerator=lambda **kw: gen, FJSPGenerator=lambda **kw: gen, FJSPFileGenerator=lambda **kw: gen)
+    u.inline((F, "FJSPEnv.__init__"))
+    from tvc.unit import spec as _spec  # noqa: F401
+    for cls, file in (("JSSPEnv", JS), ("FJSPEnv", F)):
+        for mno in (True, False):
+            env = u.obj(file, cls, _make_spec=lambda g: None)
+            u.run(file, f"{cls}.__init__", gen, {}, selfobj=env, record=False, mask_no_ops=mno)
+            u.prove(f"{cls}.mask_no_ops={mno}.keyword", env._attrs.get("mask_no_ops") is mno and env._attrs.get("check_mask") is False and env._attrs.get("stepwise_reward") is False)
+        env = u.obj(file, cls, _make_spec=lambda g: None)
+        u.run(file, f"{cls}.__init__", gen, {}, False, selfobj=env, record=False)
+        u.prove(f"{cls}.mask_no_ops.third-positional", env._attrs.get("mask_no_ops") is False and env._attrs.get("check_mask") is False)
+    env = u.obj(F, "FJSPEnv", _make_spec=lambda g: None)
+    u.run(F, "FJSPEnv.__init__", gen, {}, selfobj=env, record=False, check_mask=True, stepwise_reward=True)
+    u.prove("FJSPEnv.other-flags", env._attrs.get("mask_no_ops") is True and env._attrs.get("check_mask") is True and env._attrs.get("stepwise_reward") is True
+            and env._attrs.get("_num_mas") == 3 and env._attrs.get("_num_jobs") == 4 and env._attrs.get("_n_ops_max") == 12)
